@@ -166,7 +166,23 @@ def s_bundle_head(rng, nval):
     return _mk(prog, "bundle_literal_at_head_of_pool", rng, nval, small=True)
 
 
-STRATA = [(s_mix, 6), (s_mix_head, 4), (s_memory, 2), (s_many, 1), (s_bundle_head, 3)]
+def s_named_like_signal(rng, nval):
+    """Untyped values whose VARIABLE NAME is a game signal name (coal, water, ...), next to explicit uses of that signal."""
+    pool = ["coal", "wood", "stone", "pipe", "rail", "water", "steam", "lab", "pump", "boiler"]
+    names = rng.sample(pool, k=rng.randint(1, 3))
+    far = gen.Types(rng, ("far",))
+    prog = []
+    for nm in names:
+        prog.append(["input", nm, None, rng.randint(1, 9)])
+    other = rng.choice(names)
+    prog.append(["input", "e0", other, rng.randint(1, 9)])        # the same signal, used explicitly
+    prog.append(["sig", "r0", ["p", ["b", "+", ["v", names[0]], ["v", "e0"]], far.fresh()]])
+    for k, nm in enumerate(names):
+        prog.append(["sig", "q%d" % k, ["b", rng.choice(["+", "*"]), ["v", nm], ["n", rng.randint(1, 5)]]])
+    return _mk(prog, "untyped_value_named_like_a_signal", rng, nval, small=True)
+
+
+STRATA = [(s_mix, 6), (s_mix_head, 4), (s_memory, 2), (s_many, 1), (s_bundle_head, 3), (s_named_like_signal, 2)]
 
 
 def gen_cases(tier, seed):
